@@ -10,6 +10,7 @@ Oracles:
      for valid option edits the reloaded get_func() behaves like the original on several signals."""
 import collections
 import copy
+import io
 import os
 import shutil
 
@@ -69,7 +70,8 @@ def rand_value(rng):
             ((3, 3),), [(2, 3)], [[1, 2], (3, 4)], {'a': (1, 2)},
             # arrays / tuples that are instances of a subclass (what np.load(mmap_mode=...), np.ma or a namedtuple hand over)
             {'__view__': 'memmap', 'data': [.25, .1, .04]}, {'__view__': 'masked', 'data': [1., .5]}, {'__view__': 'subclass', 'data': [2., 3.]},
-            {'__view__': 'bigendian', 'data': [.3, .1]}, {'__namedtuple__': [0.05, 0.5, 0.05]}][int(rng.integers(21))]
+            {'__view__': 'bigendian', 'data': [.3, .1]}, {'__namedtuple__': [0.05, 0.5, 0.05]},
+            {}, {}, []][int(rng.integers(24))]      # (an option group emptied by the user and then refilled key by key)
 
 
 _NT = collections.namedtuple('Thresholds', ['sd1', 'sd2', 'tol'])
@@ -151,7 +153,11 @@ def yaml_roundtrips(ctx, S, cfg, name, case, wdir, tag):
                     back = S.SiftConfig.from_yaml_file(fn)
             else:
                 txt = cfg.to_yaml_text()
-                back = S.SiftConfig.from_yaml_stream(txt)
+                # the text handed back as a str, or as any of the other stream forms a YAML document arrives in
+                form = ctx.evaluations % 5
+                carrier = [txt, txt, txt.encode(), io.BytesIO(txt.encode()), io.StringIO(txt)][form]
+                ctx.count('yaml_text_carried_as:' + ['str', 'str', 'bytes', 'BytesIO', 'StringIO'][form])
+                back = S.SiftConfig.from_yaml_stream(carrier)
         except Exception as e:
             ctx.violation('yaml-exception:%s:%s' % (route, type(e).__name__), 'YAML %s route raised %s: %s' % (route, type(e).__name__, str(e)[:100]), case)
             return None
@@ -378,6 +384,16 @@ def gen_history(rng, name):
         except Exception:
             pass
         h.append(step)
+    if rng.random() < .25:
+        # an option group emptied and then refilled through key paths (the group itself may be replaced by an empty dict here:
+        # it stays a dictionary)
+        grp = gens.pick(rng, [['imf_opts'], ['envelope_opts'], ['extrema_opts'], ['extrema_opts', 'mag_pad_opts'], ['extrema_opts', 'loc_pad_opts']])
+        fill = {'imf_opts': [('stop_method', 'rilling'), ('max_iters', 50)], 'envelope_opts': [('interp_method', 'mono_pchip')],
+                'extrema_opts': [('pad_width', 3)], 'mag_pad_opts': [('mode', 'maximum'), ('stat_length', 2)], 'loc_pad_opts': [('mode', 'reflect'), ('reflect_type', 'odd')]}[grp[-1]]
+        h.append({'op': 'set', 'path': list(grp), 'value': {}, 'export': False})
+        for k, v in fill:
+            h.append({'op': 'set', 'path': list(grp) + [k], 'value': v, 'export': False})
+        h.append({'op': 'get', 'path': list(grp), 'export': True})
     return h
 
 
